@@ -281,6 +281,26 @@ def main(tier, seed, replay=None):
     identities(rep, I, impl, rnd, tier)
     if tier == "thorough":
         core.coqchk(rep, "Ckl.Props.C15")
+    # elements and parts of other kinds than the model's symbols: NULL, strings, booleans, decimals, nested lists in lists
+    import itertools
+    ELEMS = [("NULL", None), ("1", 1), ("'a'", "a"), ("TRUE", True), ("2.5", 2.5), ("[1]", (1,))]
+    nb = 0
+    for n in range(0, 4):
+        for combo in itertools.product(range(len(ELEMS)), repeat=n):
+            if n == 3 and sum(combo) % 3:
+                continue
+            lit = "[" + ", ".join(ELEMS[i][0] for i in combo) + "]"
+            vals = [ELEMS[i][1] for i in combo]
+            for psrc, pv in ELEMS:
+                first = next((i for i, v in enumerate(vals) if v == pv and type(v) is type(pv)), -1)
+                last = next((i for i in range(len(vals) - 1, -1, -1) if vals[i] == pv and type(vals[i]) is type(pv)), -1)
+                out = impl.run_src(I, "[find(%s, %s), find_last(%s, %s)]" % (lit, psrc, lit, psrc))
+                rep.count()
+                if out != ("val", "(list (i %d) (i %d))" % (first, last)):
+                    nb += 1
+                    rep.violation("input", "[find(%s, %s), find_last(%s, %s)] gives %s, the first / last positions are %d / %d" % (lit, psrc, lit, psrc, out[:2], first, last),
+                                  check="find-kinds", program="find(%s, %s)" % (lit, psrc))
+    rep.oblige("find / find_last on lists of NULL, ints, strings, booleans, decimals and lists return the first / last position or -1", nb == 0, "%d wrong" % nb)
     return rep.finish()
 
 
